@@ -21,6 +21,7 @@ inductive Op where
   | gen | genFail | genFailWrote | genNil | genCrash | genTorn
   | take | takeFail | takeCrashBefore | takeCrashAfter
   | restart | restartFail
+  | pause
   deriving DecidableEq, Repr
 
 inductive Out where
@@ -108,6 +109,9 @@ def step (fixed : Bool) (s : St) : Op → St × Out
     | some (some id, s') => (reload { s' with disk := s'.disk.erase id } true, .crashed)
   | .restart => (reload s true, .restarted)
   | .restartFail => (reload s false, .restarted)
+  -- the scheduler stops generation (a protocol started): a generator blocked on the full pool
+  -- leaves through `ctx.Done()`; its parameter stays on storage but never enters this pool
+  | .pause => ({ s with pending := none }, .restarted)
 
 /-- a whole history; a panic ends it. Returns the final state, the per-step outputs and the
     pool length after every completed step. -/
